@@ -419,8 +419,17 @@ impl RemoveOpts {
         } else {
             if let Some(meta) = crate::metadata_sync(cache.as_ref(), key.as_ref())? {
                 let content = content_path(cache.as_ref(), &meta.integrity);
-                fs::remove_file(&content)
-                    .with_context(|| format!("Failed to remove content at {content:?}"))?;
+                match fs::remove_file(&content) {
+                    Ok(()) => {}
+                    // Already gone -- removed by address, or shared with a key
+                    // that was removed fully: nothing left to delete here, the
+                    // entry itself still has to go.
+                    Err(e) if e.kind() == std::io::ErrorKind::NotFound => {}
+                    Err(e) => {
+                        return Err(e)
+                            .with_context(|| format!("Failed to remove content at {content:?}"))
+                    }
+                }
             }
             let bucket = bucket_path(cache.as_ref(), key.as_ref());
             fs::remove_file(&bucket)
@@ -440,9 +449,15 @@ impl RemoveOpts {
         } else {
             if let Some(meta) = crate::metadata(cache.as_ref(), key.as_ref()).await? {
                 let content = content_path(cache.as_ref(), &meta.integrity);
-                crate::async_lib::remove_file(&content)
-                    .await
-                    .with_context(|| format!("Failed to remove content at {content:?}"))?;
+                match crate::async_lib::remove_file(&content).await {
+                    Ok(()) => {}
+                    // See `remove_sync`.
+                    Err(e) if e.kind() == std::io::ErrorKind::NotFound => {}
+                    Err(e) => {
+                        return Err(e)
+                            .with_context(|| format!("Failed to remove content at {content:?}"))
+                    }
+                }
             }
             let bucket = bucket_path(cache.as_ref(), key.as_ref());
             crate::async_lib::remove_file(&bucket)
